@@ -1112,6 +1112,163 @@ func strProp(c StrCase, r *pbt.R) error {
 	return nil
 }
 
+// ---------------------------------------------------------------------------
+// other instantiations: byte and string elements (an implementation may special-case element types), and Flip
+
+// TypedCase: H selects a helper of typedHelpers; A and B are element codes (0..3); SpareA spare capacity behind A.
+type TypedCase struct {
+	H      int   `json:"h"`
+	A      []int `json:"a"`
+	B      []int `json:"b"`
+	SpareA int   `json:"spare_a"`
+	F      int   `json:"f"`
+}
+
+var typedNames = []string{"Unique", "Filter", "Map", "Merge", "Without", "Difference", "Intersection", "Duplicate", "DropWhile", "DropRightWhile", "Partition", "UniqueBy", "Union", "Flatten", "ToSlice", "FindAll", "GroupBy", "Flip"}
+
+// typedRun runs helper h on element type T (mk maps a code to an element, never to the sentinel) and reports an alteration of the arguments.
+func typedRun[T comparable](c TypedCase, name string, mk func(int) T, sentinel T) error {
+	if len(c.A) > 64 || len(c.B) > 64 || c.SpareA < 0 || c.SpareA > 16 {
+		return nil
+	}
+	build := func(codes []int, spare int) []T {
+		buf := make([]T, len(codes)+spare)
+		for i := range buf {
+			buf[i] = sentinel
+		}
+		for i, v := range codes {
+			buf[i] = mk(v)
+		}
+		return buf[:len(codes)]
+	}
+	a, b := build(c.A, c.SpareA), build(c.B, 0)
+	snap := func() string { return fmt.Sprint(a[:cap(a)], len(a), b[:cap(b)], len(b)) }
+	before := snap()
+	odd := func(v T) bool { return v == mk(1) || v == mk(3) }
+	if c.F%2 == 1 {
+		odd = func(T) bool { return true }
+	}
+	key := func(v T) T {
+		if v == mk(3) {
+			return mk(1)
+		}
+		return v
+	}
+	h := ((c.H % len(typedNames)) + len(typedNames)) % len(typedNames)
+	call := func() any {
+		switch h {
+		case 0:
+			return gogu.Unique(a)
+		case 1:
+			return gogu.Filter(a, odd)
+		case 2:
+			return gogu.Map(a, key)
+		case 3:
+			return gogu.Merge(a, b, a)
+		case 4:
+			return gogu.Without[T, T](a, b...)
+		case 5:
+			return gogu.Difference(a, b)
+		case 6:
+			return gogu.Intersection(a, b)
+		case 7:
+			return gogu.Duplicate(a)
+		case 8:
+			return gogu.DropWhile(a, odd)
+		case 9:
+			return gogu.DropRightWhile(a, odd)
+		case 10:
+			p := gogu.Partition(a, odd)
+			return append(append([]T(nil), p[0]...), p[1]...)
+		case 11:
+			return gogu.UniqueBy(a, key)
+		case 12:
+			v, _ := gogu.Union[T]([]any{a, b})
+			return v
+		case 13:
+			v, _ := gogu.Flatten[T]([]any{a, []any{b}})
+			return v
+		case 14:
+			return gogu.ToSlice(a...)
+		case 15:
+			fa := gogu.FindAll(a, odd)
+			out := make([]T, 0, len(fa))
+			for _, v := range fa {
+				out = append(out, v)
+			}
+			return out
+		case 16:
+			g := gogu.GroupBy(a, key)
+			var out []T
+			for _, vs := range g {
+				out = append(out, vs...)
+			}
+			return out
+		default:
+			// Flip: the function it returns must give every call a result of its own. The flipped function here returns its
+			// argument list (so the reversal happens in the slice that is spread into the call: private copies are passed).
+			flipped := gogu.Flip(func(args ...T) []T { return args })
+			r1 := flipped(append([]T(nil), a...)...)
+			s1 := fmt.Sprint(r1)
+			flipped(append([]T(nil), b...)...)
+			flipped(append([]T(nil), a...)...)
+			if got := fmt.Sprint(r1); got != s1 {
+				return fmt.Errorf("the result of the first call of a flipped function read %s and reads %s after two more calls", s1, got)
+			}
+			return nil
+		}
+	}
+	res := call()
+	where := fmt.Sprintf("%s on []%s a=%v (+%d spare) b=%v", typedNames[h], name, a, c.SpareA, b)
+	if err, ok := res.(error); ok {
+		return fmt.Errorf("%s: %v", where, err)
+	}
+	if after := snap(); after != before {
+		return fmt.Errorf("%s: the arguments changed: before %s after %s", where, before, after)
+	}
+	if out, ok := res.([]T); ok && h != 17 {
+		for i := range out {
+			out[i] = sentinel
+		}
+		if after := snap(); after != before {
+			return fmt.Errorf("%s: overwriting the RESULT changed the arguments (the result shares storage with an argument): before %s after %s", where, before, after)
+		}
+		again := call()
+		if o2, ok := again.([]T); ok {
+			for _, v := range o2 {
+				if v == sentinel {
+					return fmt.Errorf("%s: after the caller overwrote the first result, the same call returns the overwritten value: %v", where, o2)
+				}
+			}
+		}
+	}
+	return nil
+}
+
+func typedProp(c TypedCase, r *pbt.R) error {
+	if err := typedRun(c, "byte", func(i int) byte { return byte('a' + ((i%4)+4)%4) }, byte(0xEE)); err != nil {
+		return err
+	}
+	if err := typedRun(c, "string", func(i int) string { return []string{"", "x", "yy", "x\x00"}[((i%4)+4)%4] }, "SENTINEL"); err != nil {
+		return err
+	}
+	if err := typedRun(c, "float64", func(i int) float64 { return []float64{0, 1.5, -2, 1e300}[((i%4)+4)%4] }, -7777.5); err != nil {
+		return err
+	}
+	type pt struct{ X, Y int8 }
+	if err := typedRun(c, "struct", func(i int) pt { return pt{int8(i % 4), int8(i % 2)} }, pt{-77, -77}); err != nil {
+		return err
+	}
+	dup := false
+	for i, v := range c.A {
+		for _, w := range c.A[i+1:] {
+			dup = dup || v == w
+		}
+	}
+	r.NonTrivialIf(dup, "argument with a repeated element")
+	return nil
+}
+
 func TestProp(t *testing.T) {
 	rule := fmt.Sprintf(commonRule, len(registry))
 	pbt.Run(t, "C16",
@@ -1150,6 +1307,24 @@ func TestProp(t *testing.T) {
 			Enum: strEnum, Gen: strGen, Prop: strProp,
 			OutOfEnum:  func(c StrCase, th bool) bool { return len(c.Calls) > 3 },
 			RapidQuick: 800, RapidThorough: 10000,
+		},
+		&pbt.Check[TypedCase]{
+			Name: "typed",
+			Rule: "the same ownership rules on other element types - byte, string, float64 and a small struct (an implementation may special-case an element type): 17 helpers that return a new slice (Unique, Filter, Map, Merge, Without, Difference, Intersection, Duplicate, DropWhile, DropRightWhile, Partition, UniqueBy, Union, Flatten, ToSlice, FindAll, GroupBy) and Flip, on a (with sentinels in 0..3 elements of spare capacity) and b: the arguments incl. the spare capacity are unchanged, overwriting the result does not reach them, and the same call made again does not return the overwritten value; a flipped function gives every call a result of its own. " +
+				"Enumerated: every helper x a up to length 3 (thorough 4) over 4 codes x b up to length 2 x spare {0,2} x 2 predicates; random: lengths up to 12. Non-trivial = a has a repeated element.",
+			Enum: func(s pbt.Src, thorough bool) TypedCase {
+				n := 3
+				if thorough {
+					n = 4
+				}
+				return TypedCase{H: s.Intn(len(typedNames)), A: pbt.Seq(s, 0, n, func(s pbt.Src) int { return s.Intn(4) }), B: pbt.Seq(s, 0, 2, func(s pbt.Src) int { return s.Intn(4) }), SpareA: 2 * s.Intn(2), F: s.Intn(2)}
+			},
+			Gen: func(s pbt.Src, _ bool) TypedCase {
+				return TypedCase{H: s.Intn(len(typedNames)), A: pbt.Seq(s, 0, 12, func(s pbt.Src) int { return s.Intn(4) }), B: pbt.Seq(s, 0, 8, func(s pbt.Src) int { return s.Intn(4) }), SpareA: s.Intn(9), F: s.Intn(2)}
+			},
+			Prop:       typedProp,
+			OutOfEnum:  func(c TypedCase, th bool) bool { return len(c.A) > 4 || len(c.B) > 2 || (c.SpareA != 0 && c.SpareA != 2) },
+			RapidQuick: 400, RapidThorough: 5000,
 		},
 	)
 }
